@@ -59,7 +59,7 @@ class C18(Check):
             'str without newline but with separators, quotes, escape characters, blanks at either end, empty) x separator in {",", ";", "|", tab, '
             '"::"} x escape char in {backslash, ^}; path A: real csv.dump() -> character stream re-cut by a seeded schedule (inside quoted fields '
             'and escape pairs) -> real line.unframe() -> real csv.load(); path B: real dump_to_file onto a simulated disk -> real load_from_file '
-            'through open_obj with a short-read schedule (thorough: images > 64 KiB read with full-size reads). oracle: rows equal field by field '
+            'through open_obj with a short-read schedule (thorough: images > 64 KiB read with full-size reads); schema as a list or as a typing.NamedTuple class with and without default values; string values also as instances of str subclasses (a user class, numpy.str_). oracle: rows equal field by field '
             '(floats by value and sign). non-trivial: >= 2 rows and a str column holding a separator, quote or escape char, or a float column; '
             'distinct = distinct (rows, configuration, schedule)')
     real = ['rxsci.container.csv dump/load/dump_to_file/load_from_file/create_line_parser, rxsci.framing.line, rxsci.io.file (current working tree)',
